@@ -1,10 +1,10 @@
 (* C10 -- binary pack format.  Statements only; the model is Model.Pack (codecs) + Model.PackSpec (format limits
    pack_ok, expected result of unpack), the proofs are in Proofs.PackBits / PackRoundtrip / PackRoundtripGraph /
-   PackRoundtripMol / PackLayout / PackElements / PackProofs / PackRxn / PackRxnLen / F16Proofs. *)
+   PackRoundtripMol / PackLayout / PackElements / PackProofs / PackRxn / PackRxnLen / PackV0 / F16Proofs. *)
 From Coq Require Import ZArith List Bool.
 From Model Require Import PyBase Pack PackSpec PackApi F16.
 From Gen Require Import Elements.
-From Proofs Require Import PackBits PackRoundtrip PackRoundtripGraph PackRoundtripMol PackLayout PackElements PackApiProofs PackProofs PackRxn PackRxnLen F16Proofs.
+From Proofs Require Import PackBits PackRoundtrip PackRoundtripGraph PackRoundtripMol PackLayout PackElements PackApiProofs PackProofs PackRxn PackRxnLen PackV0 F16Proofs.
 Import ListNotations.
 Open Scope Z_scope.
 
@@ -82,6 +82,13 @@ Theorem C10_conn_table_layout : forall ms, Forall (fun m => 0 <= m < 4096) ms ->
   conn_bytes ms = pair_bytes ms.
 Proof. exact conn_bytes_layout. Qed.
 Print Assumptions C10_conn_table_layout.
+
+(* version 0 (legacy packs; no writer in the repository): the order block reader inverts the version 0 layout -- per
+   5 bonds one zero bit and five 3-bit fields in 2 bytes -- for ALL lists of groups *)
+Theorem C10_read_orders_v0_layout : forall groups, Forall v0_group_ok groups ->
+  read_orders_v0 (flat_map v0_group_bytes groups) = Some (flat_map v0_group_orders groups).
+Proof. exact read_orders_v0_layout. Qed.
+Print Assumptions C10_read_orders_v0_layout.
 
 (* the size pack computes before allocating is the number of bytes it writes (no byte of the buffer is left unwritten
    or written twice) *)
